@@ -546,24 +546,7 @@ def real_effects(out):
 
 def sdiv(I, st, x, y):
     """spec-side floor division that never constrains the path: q = floor(x/y) when y > 0, else 0."""
-    if isinstance(y, int):
-        if y > 0:
-            return I.idiv(st, x, y)[0]
-        return 0
-    from smir.interp import same_term
-    xs_ = z3.simplify(x) if is_sym(x) else x
-    ys_ = z3.simplify(y) if is_sym(y) else y
-    for (x0, y0, q0, r0) in st.ghost.get('divs', ()):
-        if same_term(x0, xs_) and same_term(y0, ys_):
-            return q0
-    x, y = xs_, ys_
-    q = I.fresh('sq')
-    r = I.fresh('sr')
-    st.add(z3.And(z3.Implies(y > 0, z3.And(x == q * y + r, r >= 0, r < y)), z3.Implies(y <= 0, q == 0), q >= 0))
-    xl, xh = I.bounds(x)
-    I.var_bounds[q.decl().name()] = (0, xh)
-    st.ghost['divs'] = st.ghost.get('divs', ()) + ((x, y, q, r),)
-    return q
+    return I.gdiv(st, x, y)
 
 
 def spec_rate(I, st, B, claims):
